@@ -28,6 +28,14 @@ class DetRandom:
         return getattr(secrets, name)
 
 
+def hdr_bytes(v):
+    """Header value as the bytes a client puts on the wire (UTF-8 when not latin-1)."""
+    try:
+        return v.encode('latin-1')
+    except UnicodeEncodeError:
+        return v.encode('utf-8')
+
+
 def patch_secrets():
     import engineio.base_server as bs
     det = DetRandom()
@@ -231,7 +239,7 @@ class AWorld:
             'query_string': query.encode('utf-8', 'surrogateescape')
             if isinstance(query, str) else query,
             'root_path': '',
-            'headers': [(k.lower().encode('latin-1'), v.encode('latin-1')) for k, v in hdrs],
+            'headers': [(k.lower().encode('latin-1'), hdr_bytes(v)) for k, v in hdrs],
             'client': ('127.0.0.1', 40000), 'server': ('127.0.0.1', 80),
         }
         events = collections.deque()
@@ -325,7 +333,7 @@ class AWorld:
             'http_version': '1.1', 'scheme': scheme, 'path': path,
             'raw_path': path.encode(), 'query_string': query.encode('utf-8', 'surrogateescape'),
             'root_path': '',
-            'headers': [(k.lower().encode('latin-1'), v.encode('latin-1'))
+            'headers': [(k.lower().encode('latin-1'), hdr_bytes(v))
                         for k, v in (list(headers) + (
                             list(upgrade_hdrs) if upgrade_hdrs is not None else
                             [('Upgrade', 'websocket'), ('Connection', 'Upgrade')]))],
